@@ -1710,6 +1710,53 @@ Proof.
   split; [apply tree_okb_sound; by vm_compute|]. repeat split; by vm_compute.
 Qed.
 
+(* Serialised admission is a hypothesis of every history theorem: [run_history] validates each
+   request against the set produced by the previous ones.  Two requests validated against the SAME
+   set (concurrent admissions / a lister that lags) are both admitted and break the invariant:
+   a cycle, an over-subscribed parent, a dangling parent. *)
+Definition conc_Q : queues :=
+  list_to_map [(1, q_ None [] [] []); (3, q_ (Some 1) [] [] []); (4, q_ (Some 1) [] [] []);
+               (7, q_ (Some 1) [] (cpu_l 10000%Z) (cpu_l 10000%Z))]%positive.
+
+Theorem concurrent_cycle_refuted :
+  exists c Q r1 r2, TreeInv c Q /\ 1 <= max_depth c /\ verdict_of c Q r1 = VAllowed /\
+    verdict_of c Q r2 = VAllowed /\ ~ ShapeInv c (apply_req (apply_req Q r1) r2).
+Proof.
+  exists default_cfg, conc_Q, (Update 3 (q_ (Some 4) [] [] []))%positive,
+         (Update 4 (q_ (Some 3) [] [] []))%positive.
+  split; [apply tree_okb_sound; by vm_compute|]. split; [done|]. split; [by vm_compute|]. split; [by vm_compute|].
+  intros Hs. eapply (shape_acyclic _ _ 3%positive); [exact Hs|by vm_compute|done|].
+  eapply anc_trans; [eapply (anc_parent _ 3 _ 4)%positive; [by vm_compute|done|done]|].
+  eapply (anc_parent _ 4 _ 3)%positive; [by vm_compute|done|done].
+Qed.
+
+Theorem concurrent_sums_refuted :
+  exists c Q r1 r2, TreeInv c Q /\ 1 <= max_depth c /\ verdict_of c Q r1 = VAllowed /\
+    verdict_of c Q r2 = VAllowed /\ ~ SumInv (apply_req (apply_req Q r1) r2).
+Proof.
+  exists default_cfg, conc_Q, (Create 5 (q_ (Some 7) [] (cpu_l 6000%Z) (cpu_l 6000%Z)))%positive,
+         (Create 6 (q_ (Some 7) [] (cpu_l 6000%Z) (cpu_l 6000%Z)))%positive.
+  split; [apply tree_okb_sound; by vm_compute|]. split; [done|]. split; [by vm_compute|]. split; [by vm_compute|].
+  intros [Hg _].
+  specialize (Hg 7%positive (q_ (Some 1%positive) [] (cpu_l 10000) (cpu_l 10000))).
+  assert (12000 <= 10000) as Habs; [|lia].
+  assert (csum qguar (apply_req (apply_req conc_Q (Create 5 (q_ (Some 7) [] (cpu_l 6000%Z) (cpu_l 6000%Z)))%positive)
+                        (Create 6 (q_ (Some 7) [] (cpu_l 6000%Z) (cpu_l 6000%Z)))%positive) 7%positive cpu_d = 12000) as <- by by vm_compute.
+  change 10000 with (amount (qguar (q_ (Some 1%positive) [] (cpu_l 10000) (cpu_l 10000))) cpu_d).
+  apply Hg; [by vm_compute|done|done].
+Qed.
+
+Theorem concurrent_dangling_refuted :
+  exists c Q r1 r2, TreeInv c Q /\ 1 <= max_depth c /\ verdict_of c Q r1 = VAllowed /\
+    verdict_of c Q r2 = VAllowed /\ ~ ShapeInv c (apply_req (apply_req Q r1) r2) /\
+    capacity_ready (apply_req (apply_req Q r1) r2) = false.
+Proof.
+  exists default_cfg, conc_Q, (Delete 4)%positive, (Create 5 (q_ (Some 4) [] [] []))%positive.
+  split; [apply tree_okb_sound; by vm_compute|]. split; [done|]. split; [by vm_compute|]. split; [by vm_compute|].
+  split; [|by vm_compute].
+  intros Hs. pose proof (shape_capacity_ready _ _ Hs) as Hr. by vm_compute in Hr.
+Qed.
+
 (* F3, first half: the validation as it was before the fix admits a.parent := c on
    root <- a <- b <- c, and the result is not a tree *)
 Definition f3_Q : queues :=
